@@ -1418,10 +1418,14 @@ def mutate(rng, o, k, v):
         setslot(o, k, bytearray(v) + bytearray(tgt - len(v)))
         return "bytes_to_%d" % tgt
     if isinstance(v, int):
+        # byte-aligned widths, plus the 14- and 15-bit fields of the SSLv2
+        # record header and a value with low bits set (a wrap would alias)
         nv = rng.choice([(1 << 8), (1 << 16), (1 << 24), (1 << 32),
-                         (1 << 64), -1])
+                         (1 << 64), -1, (1 << 14), (1 << 15),
+                         (1 << 14) | 0x1234, (1 << 15) | 0x0234])
         setslot(o, k, nv)
-        return "int_%s" % ("neg" if nv < 0 else "2^%d" % (nv.bit_length() - 1))
+        return "int_%s" % ("neg" if nv < 0 else "2^%d%s" % (
+            nv.bit_length() - 1, "" if nv & (nv - 1) == 0 else "+"))
     if isinstance(v, tuple):
         i = rng.randrange(len(v))
         nv = rng.choice([256, 65536, -1])
@@ -1645,10 +1649,65 @@ def make_cases(ctx):
             yield "%s#%d" % (it.name, n), (it.name, n)
 
 
+def small_domain_headers(ctx):
+    """record headers have a handful of small fields: the whole boundary
+    grid is enumerated (write either raises or parses back to the value)"""
+    from tlslite.utils.codec import Parser
+    grid = [0, 1, 0xff, 0x100, 0x3fff, 0x4000, 0x4001, 0x5234, 0x7fff,
+            0x8000, 0x8001, 0x9234, 0xffff, 0x10000, 0x10001, -1]
+    for esc in (False, True):
+        for pad in (0, 1, 7, 255, 256, -1):
+            for ln in grid:
+                ctx.ev()
+                ctx.count("header_grid")
+                key = {"cls": "RecordHeader2", "field": "length/padding",
+                       "clause": "write_silent_truncation"}
+                try:
+                    w = bytes(M.RecordHeader2().create(ln, pad, esc).write())
+                except Exception:   # noqa
+                    ctx.count("header_grid_raised")
+                    continue
+                try:
+                    h = M.RecordHeader2().parse(Parser(bytearray(w)))
+                    back = (h.length, h.padding, bool(h.securityEscape))
+                except Exception as e:   # noqa
+                    back = repr(e)
+                if back != (ln, pad, esc):
+                    viol(ctx, key, {"written": w, "value": [ln, pad, esc],
+                                    "parsed": back},
+                         "RecordHeader2(length=%r, padding=%r, escape=%r)"
+                         ".write() -> %r parses back as %r" % (
+                             ln, pad, esc, w, back))
+    for typ in (0, 22, 255, 256, -1):
+        for ver in ((3, 3), (255, 255), (256, 0), (3, 256)):
+            for ln in grid:
+                ctx.ev()
+                ctx.count("header_grid")
+                try:
+                    w = bytes(M.RecordHeader3().create(ver, typ, ln).write())
+                except Exception:   # noqa
+                    ctx.count("header_grid_raised")
+                    continue
+                try:
+                    h = M.RecordHeader3().parse(Parser(bytearray(w)))
+                    back = (tuple(h.version), h.type, h.length)
+                except Exception as e:   # noqa
+                    back = repr(e)
+                if back != (ver, typ, ln):
+                    viol(ctx, {"cls": "RecordHeader3", "field": "any",
+                               "clause": "write_silent_truncation"},
+                         {"written": w, "value": [ver, typ, ln],
+                          "parsed": back},
+                         "RecordHeader3%r.write() -> %r parses back as %r"
+                         % ((ver, typ, ln), w, back))
+
+
 def run(ctx):
     if not certs():
         ctx.inconc("no X.509 certificate could be loaded from /repo/tests")
         return
+    if ctx.shard == 0:
+        small_domain_headers(ctx)
     for cid, (name, seed) in ctx.cases(make_cases(ctx)):
         run_case(ctx, ITEM_BY_NAME[name], seed)
 
